@@ -53,6 +53,9 @@ func StartTLS(cfg *tls.Config) StreamFeature {
 			d := xml.NewTokenDecoder(r)
 
 			// If no TLSConfig was specified, use a default config.
+			// The feature may be shared by many sessions, so the default must not
+			// be stored in the captured variable: it names this session's domain.
+			cfg := cfg
 			if cfg == nil {
 				cfg = &tls.Config{
 					ServerName: session.LocalAddr().Domain().String(),
